@@ -2945,3 +2945,103 @@ Proof.
     exists rc, d', s'. split; [reflexivity|]. split; [rewrite He', Herr; reflexivity|]. split; [exact Hb'|].
     split; [intros A B; apply bwf_mwf; auto|]. apply (st_le_nofault _ _ L2). apply (st_le_nofault _ _ L Hnf).
 Qed.
+
+(* ---------------------------------------------------------------- uriRemoveBaseUriMm *)
+Lemma remove_base_impl_m_nf dr src base s : nofault s ->
+  add_base_post src base s (remove_base_impl_m dr src base s) (remove_base_impl dr (erase src) (erase base)).
+Proof.
+  intros Hnf. unfold remove_base_impl_m, remove_base_impl.
+  change (scheme (erase base)) with (t_val (m_scheme base)).
+  change (scheme (erase src)) with (t_val (m_scheme src)).
+  destruct (t_val (m_scheme base)) as [sb|] eqn:Esb.
+  2:{ unfold add_base_post. cbn [fst snd]. split; [reflexivity|]. split; [reflexivity|]. split; [apply bwf_empty|].
+      split; [intros _ _ x Hx; discriminate Hx|apply st_le_refl]. }
+  destruct (t_val (m_scheme src)) as [ss|] eqn:Ess.
+  2:{ unfold add_base_post. cbn [fst snd]. split; [reflexivity|]. split; [reflexivity|]. split; [apply bwf_empty|].
+      split; [intros _ _ x Hx; discriminate Hx|apply st_le_refl]. }
+  cbv zeta.
+  change (scheme (erase base)) with (t_val (m_scheme base)).
+  change (scheme (erase src)) with (t_val (m_scheme src)).
+  change (query (erase src)) with (t_val (m_query src)).
+  change (fragment (erase src)) with (t_val (m_fragment src)).
+  rewrite ?Esb, ?Ess.
+  assert (forall d, bwf d -> bwf (set_m_fragment (borrow (m_fragment src)) (set_m_query (borrow (m_query src)) d))) as Kf
+    by (intros d H; apply bwf_borrow_fragment, bwf_borrow_query, H).
+  destruct (negb (range_eqb (Some ss) (Some sb))).
+  - set (d0 := set_m_scheme (borrow (m_scheme src)) muri_empty).
+    assert (bwf d0) as K0 by (apply bwf_borrow_scheme, bwf_empty).
+    destruct (copy_authority_m_nf d0 src s Hnf) as (d1 & s1 & E1 & R1 & K1 & H1 & L1). rewrite E1. cbv beta iota. cbn [negb].
+    pose proof (st_le_nofault _ _ L1 Hnf) as N1.
+    destruct (copy_path_m_nf d1 src s1 N1) as (d2 & s2 & E2 & R2 & K2 & H2 & L2). rewrite E2. cbv beta iota. cbn [negb].
+    unfold add_base_post. cbn [fst snd]. split; [reflexivity|]. split; [|split; [|split]].
+    + rewrite erase_borrow_fragment, erase_borrow_query, R2, R1. unfold d0. rewrite erase_borrow_scheme, Ess.
+      change (erase muri_empty) with empty_uri. reflexivity.
+    + apply Kf, K2, K1, K0.
+    + intros Hs _. apply H2, H1, Hs.
+    + eapply st_le_trans; [exact L1|exact L2].
+  - destruct (negb (equals_authority (erase src) (erase base))).
+    + set (d0 := if negb (is_host_set (erase src)) && is_host_set (erase base)
+                 then set_m_scheme (borrow (m_scheme src)) muri_empty else muri_empty).
+      assert (bwf d0) as K0 by (unfold d0; destruct (negb (is_host_set (erase src)) && is_host_set (erase base));
+                                [apply bwf_borrow_scheme, bwf_empty|apply bwf_empty]).
+      destruct (copy_authority_m_nf d0 src s Hnf) as (d1 & s1 & E1 & R1 & K1 & H1 & L1). rewrite E1. cbv beta iota. cbn [negb].
+      pose proof (st_le_nofault _ _ L1 Hnf) as N1.
+      destruct (copy_path_m_nf d1 src s1 N1) as (d2 & s2 & E2 & R2 & K2 & H2 & L2). rewrite E2. cbv beta iota. cbn [negb].
+      unfold add_base_post. cbn [fst snd]. split; [reflexivity|]. split; [|split; [|split]].
+      * rewrite erase_borrow_fragment, erase_borrow_query, R2, R1. unfold d0.
+        destruct (negb (is_host_set (erase src)) && is_host_set (erase base));
+          [rewrite erase_borrow_scheme, Ess|]; change (erase muri_empty) with empty_uri; reflexivity.
+      * apply Kf, K2, K1, K0.
+      * intros Hs _. apply H2, H1, Hs.
+      * eapply st_le_trans; [exact L1|exact L2].
+    + destruct dr.
+      * destruct (copy_path_m_nf muri_empty src s Hnf) as (d1 & s1 & E1 & R1 & K1 & H1 & L1). rewrite E1. cbv beta iota. cbn [negb].
+        pose proof (st_le_nofault _ _ L1 Hnf) as N1.
+        destruct (fix_ambiguity_m_step (set_m_abs true d1) s1 N1) as (d2 & s2 & E2 & R2 & K2 & H2 & L2). rewrite E2. cbv beta iota. cbn [negb].
+        unfold add_base_post. cbn [fst snd]. split; [reflexivity|]. split; [|split; [|split]].
+        -- rewrite erase_borrow_fragment, erase_borrow_query, R2, erase_set_abs, R1.
+           change (erase muri_empty) with empty_uri. reflexivity.
+        -- apply Kf, K2, bwf_set_abs, K1, bwf_empty.
+        -- intros _ _. apply H2. apply (H1 (fun x (Hx : t_val (m_ipFuture muri_empty) = Some x) => ltac:(discriminate Hx))).
+        -- eapply st_le_trans; [exact L1|exact L2].
+      * change (pathSegs (erase src)) with (map sg_text (m_segs src)).
+        change (pathSegs (erase base)) with (map sg_text (m_segs base)).
+        destruct (skip_common (map sg_text (m_segs src)) (map sg_text (m_segs base))) as [s' b'].
+        destruct (append_segs_nf (parents b' ++ rest_segments (match parents b' with [] => true | _ => false end) s') [] s Hnf)
+          as (segs & s1 & E1 & V1 & B1 & L1).
+        rewrite E1. cbn [rev app]. unfold add_base_post. cbn [fst snd]. split; [reflexivity|]. split; [|split; [|split]].
+        -- rewrite erase_borrow_fragment, erase_borrow_query.
+           change (erase (set_m_segs segs muri_empty)) with (set_pathSegs (map sg_text segs) empty_uri). rewrite V1. reflexivity.
+        -- apply Kf, bwf_set_segs; [apply bwf_empty|exact B1].
+        -- intros _ _ x Hx. discriminate Hx.
+        -- exact L1.
+Qed.
+
+Lemma remove_base_impl_error dr src base :
+  fst (remove_base_impl dr src base) <> 0%N -> snd (remove_base_impl dr src base) = empty_uri.
+Proof.
+  unfold remove_base_impl. destruct (scheme base); [destruct (scheme src)|]; cbn [fst snd];
+    try reflexivity. intros H; contradiction H; reflexivity.
+Qed.
+
+Lemma remove_base_m_erasure dr src base s : nofault s ->
+  exists rc d s', remove_base_m dr src base s = (rc, d, s')
+    /\ (rc, erase d) = remove_base dr (erase src) (erase base)
+    /\ bwf d /\ (mwf_host src -> mwf_host base -> mwf d) /\ nofault s'.
+Proof.
+  intros Hnf. unfold remove_base_m, remove_base.
+  pose proof (remove_base_impl_m_nf dr src base s Hnf) as H. unfold add_base_post in H.
+  destruct (remove_base_impl_m dr src base s) as [[rc d] s1]. destruct H as (Hrc & He & Hb & Hh & L).
+  destruct (remove_base_impl dr (erase src) (erase base)) as [prc pu] eqn:Ep. cbn [fst snd] in Hrc, He. subst prc. subst pu.
+  destruct (rc =? 0)%N eqn:E0.
+  - exists rc, d, s1. split; [reflexivity|]. split; [reflexivity|]. split; [exact Hb|].
+    split; [intros A B; apply bwf_mwf; auto|apply (st_le_nofault _ _ L Hnf)].
+  - apply N.eqb_neq in E0.
+    pose proof (remove_base_impl_error dr (erase src) (erase base)) as Herr. rewrite Ep in Herr. cbn [fst snd] in Herr.
+    specialize (Herr E0).
+    pose proof (free_members_le d s1) as L2. destruct (bwf_free_members d s1 Hb) as [Hb' Hh'].
+    pose proof (free_members_empty d s1 (proj1 Hb) Herr) as He'.
+    destruct (free_members d s1) as [d' s']. cbn [fst snd] in *.
+    exists rc, d', s'. split; [reflexivity|]. split; [rewrite He', Herr; reflexivity|]. split; [exact Hb'|].
+    split; [intros A B; apply bwf_mwf; auto|]. apply (st_le_nofault _ _ L2). apply (st_le_nofault _ _ L Hnf).
+Qed.
